@@ -21,8 +21,8 @@ extern "C" {
 const char *verif_property = "C13";
 const char *verif_class_names[] = { "near_limit", "beyond_limit", "empty_rendering", "width_exceeds_room", "ellipsis", "tiny_limit", "big_limit",
 	"format_ends_in_directive", "unknown_directive", "long_format", "empty_message", "trailing_newline", "extended_marker", "rejected_limit",
-	"right_align", "static_directive", "tag_stringify", "two_targets", NULL };
-enum { K_NEAR, K_BEYOND, K_EMPTY, K_WIDE, K_ELL, K_TINY, K_BIG, K_ENDDIR, K_UNK, K_LONGFMT, K_EMPTYMSG, K_NL, K_XC, K_REJ, K_RALIGN, K_STATIC, K_TAGS, K_TWO };
+	"right_align", "static_directive", "tag_stringify", "two_targets", "priority_beyond_trace", NULL };
+enum { K_NEAR, K_BEYOND, K_EMPTY, K_WIDE, K_ELL, K_TINY, K_BIG, K_ENDDIR, K_UNK, K_LONGFMT, K_EMPTYMSG, K_NL, K_XC, K_REJ, K_RALIGN, K_STATIC, K_TAGS, K_TWO, K_HIPRIO };
 const char *verif_rule =
 	"case = max_line_length from {invalid: 0, negative, 4097; valid: 1..5, 16, 17, 64, 511..513, 1024, 4095, 4096}, ellipsis, extended, a format string from a grammar "
 	"(literals, %n %f %l %p %t %T %b %g %N %P %H, '-', widths 0..5000, unknown directives, formats ending inside a directive, 1..6000 chars), call-site strings empty..long, "
@@ -268,7 +268,7 @@ extern "C" int verif_case(const uint8_t *data, size_t size, struct verif_report 
 		if (vr_u8(&v) % 8 != 0) { FMT[k] = gen_format(&v, r); has_fmt[k] = true; qb_log_format_set(TGT[k], FMT[k].c_str()); }
 		VLOG(r, "target %d: limit %zu ellipsis %d extended %d format(%zu) \"%.100s\"%s\n", k, L[k], ELL[k], EXT[k], FMT[k].size(), has_fmt[k] ? FMT[k].c_str() : "<default>", FMT[k].size() > 100 ? "..." : "");
 		vop(r, L[k] * 4 + ELL[k] * 2 + EXT[k], vhash_bytes(FMT[k].data(), FMT[k].size()), has_fmt[k]);
-		qb_log_filter_ctl(TGT[k], QB_LOG_FILTER_ADD, QB_LOG_FILTER_FILE, "*", LOG_TRACE);
+		qb_log_filter_ctl(TGT[k], QB_LOG_FILTER_ADD, QB_LOG_FILTER_FILE, "*", 255);	/* every value of the 8-bit priority a call site can carry */
 		qb_log_ctl(TGT[k], QB_LOG_CONF_ENABLED, QB_TRUE);
 	}
 	M = L[0]; if (ntargets == 2 && L[1] > M) M = L[1];
@@ -294,7 +294,9 @@ extern "C" int verif_case(const uint8_t *data, size_t size, struct verif_report 
 		}
 		keep.push_back(fn); const char *fnp = keep.back().c_str();
 		keep.push_back(file); const char *filep = keep.back().c_str();
-		uint8_t prio = vr_u8(&v) % 9; uint32_t line = 1 + vr_u16(&v) % 2000; uint32_t tags = vr_u8(&v);
+		uint8_t pb = vr_u8(&v), prio = pb >= 225 ? 9 + (pb - 225) * 8 : pb % 9;	/* now and then a priority beyond LOG_TRACE (external call sites can carry any 8-bit value; %p shows them as "trace") */
+		if (prio > 8) VCLASS(r, K_HIPRIO);
+		uint32_t line = 1 + vr_u16(&v) % 2000; uint32_t tags = vr_u8(&v);
 		int before[2] = { deliveries[0], deliveries[1] };
 		unsigned style = vr_u8(&v) % 4;
 		vop(r, vhash_bytes(body.data(), body.size()), fn.size() * 1000 + file.size(), prio * 65536u + line);
